@@ -423,3 +423,140 @@ pub fn c04(out: &mut Vec<String>, rng: &mut Rng, tier: &str) {
         }
     }
 }
+
+// ------------------------------------------------------------------------------------------
+// C11: invalid / degenerate input through every interval-computing entry point
+
+fn expect(class: &str, line: String) -> String {
+    // `C11 <op> …` becomes `C11 expect <class> <op> …`
+    let rest = line.strip_prefix("C11 ").unwrap().to_string();
+    let mut it = rest.splitn(3, ' ');
+    let op = it.next().unwrap();
+    let ty = it.next().unwrap();
+    let tail = it.next().unwrap_or("");
+    format!("C11 expect {} {} {} {}", ty, class, op, tail)
+}
+
+pub fn c11(out: &mut Vec<String>, rng: &mut Rng, tier: &str) {
+    use crate::prop_ops;
+    let bad64 = [f64::NAN, f64::INFINITY, f64::NEG_INFINITY];
+    let reps = if tier == "thorough" { 40 } else { 6 };
+    let confs: Vec<Confidence> = {
+        let mut v = Vec::new();
+        for k in 0..3 {
+            for l in [0.001, 0.5, 0.95, 0.9999] {
+                v.push(conf_of(k, l));
+            }
+        }
+        v
+    };
+    for conf in &confs {
+        let conf = *conf;
+        // empty and singleton samples
+        for n in 0..2usize {
+            let xs: Vec<f64> = (0..n).map(|i| 1.5 + i as f64).collect();
+            let xs32: Vec<f32> = xs.iter().map(|x| *x as f32).collect();
+            out.push(expect("TooFewSamples", arith_case::<f64>("C11", conf, &xs)));
+            out.push(expect("TooFewSamples", arith_case::<f32>("C11", conf, &xs32)));
+            out.push(expect("TooFewSamples", geo_case::<f64>("C11", conf, &xs)));
+            out.push(expect("TooFewSamples", harm_case::<f32>("C11", conf, &xs32)));
+            out.push(expect("TooFewSamples", paired_case::<f64>("C11", conf, &xs, &xs)));
+            out.push(expect("TooFewSamples", unpaired_case::<f64>("C11", conf, &xs, &[1.0, 2.0, 4.0])));
+            out.push(expect("TooFewSamples", unpaired_case::<f32>("C11", conf, &[1.0, 2.0, 4.0], &xs32)));
+            out.push(expect("TooFewSamples", unpaired_case::<f64>("C11", conf, &xs, &xs)));
+        }
+        // constant data (the one-pass variance may round below zero): a degenerate interval
+        for c in [0.1f64, 1.0 / 3.0, 1e-20, 123456.789, -7.7] {
+            for n in [2usize, 3, 10, 1000] {
+                let xs = vec![c; n];
+                out.push(expect("sane", arith_case::<f64>("C11", conf, &xs)));
+                let xs32: Vec<f32> = xs.iter().map(|x| *x as f32).collect();
+                out.push(expect("sane", arith_case::<f32>("C11", conf, &xs32)));
+                out.push(expect("sane", paired_case::<f64>("C11", conf, &xs, &xs)));
+                out.push(expect("sane", unpaired_case::<f64>("C11", conf, &xs, &xs)));
+                if c > 0.0 {
+                    out.push(expect("sane", geo_case::<f64>("C11", conf, &xs)));
+                    out.push(expect("sane", harm_case::<f64>("C11", conf, &xs)));
+                }
+            }
+        }
+        // NaN / infinite observations at every position of otherwise valid data
+        let base = sample_f64(rng, 5, 6, 10.0);
+        for pos in 0..=base.len() {
+            for bad in bad64 {
+                let mut xs = base.clone();
+                xs.insert(pos, bad);
+                out.push(expect("InvalidInputData", arith_case::<f64>("C11", conf, &xs)));
+                let xs32: Vec<f32> = xs.iter().map(|x| *x as f32).collect();
+                out.push(expect("InvalidInputData", arith_case::<f32>("C11", conf, &xs32)));
+                out.push(expect("InvalidInputData", paired_case::<f64>("C11", conf, &xs, &vec![1.0; xs.len()])));
+                out.push(expect("InvalidInputData", unpaired_case::<f64>("C11", conf, &xs, &base)));
+                out.push(expect("InvalidInputData", unpaired_case::<f64>("C11", conf, &base, &xs)));
+                let pb: Vec<f64> = base.iter().map(|x| x.abs() + 0.5).collect();
+                let mut ps = pb.clone();
+                ps.insert(pos, bad);
+                let cls = if bad == f64::NEG_INFINITY { "NonPositiveValue" } else { "InvalidInputData" };
+                out.push(expect(cls, geo_case::<f64>("C11", conf, &ps)));
+                // 1/inf = 0 is a finite reciprocal: only NaN and -inf are invalid for the harmonic mean
+                let clsh = if bad == f64::NEG_INFINITY { "NonPositiveValue" } else if bad.is_nan() { "InvalidInputData" } else { "sane" };
+                out.push(expect(clsh, harm_case::<f64>("C11", conf, &ps)));
+            }
+        }
+        // huge / tiny magnitudes: squares overflow or underflow
+        for m in [1e200f64, 1e160, 1e-200, 1e-320, f64::MAX / 4.0] {
+            let xs = vec![m, 2.0 * m, 3.0 * m, 1.5 * m];
+            out.push(expect("sane-or-InvalidInputData", arith_case::<f64>("C11", conf, &xs)));
+            out.push(expect("sane-or-InvalidInputData", unpaired_case::<f64>("C11", conf, &xs, &[1.0, 2.0, 3.0])));
+            out.push(expect("sane-or-InvalidInputData", geo_case::<f64>("C11", conf, &xs)));
+            out.push(expect("sane-or-InvalidInputData", harm_case::<f64>("C11", conf, &xs)));
+        }
+        for m in [1e30f32, 1e25, 1e-30, 1e-44] {
+            let xs = vec![m, 2.0 * m, 3.0 * m, 1.5 * m];
+            out.push(expect("sane-or-InvalidInputData", arith_case::<f32>("C11", conf, &xs)));
+            out.push(expect("sane-or-InvalidInputData", harm_case::<f32>("C11", conf, &xs)));
+        }
+        // non-positive data for geometric / harmonic means
+        for bad in [0.0f64, -0.0, -2.5] {
+            let xs = vec![1.0, 2.0, bad, 4.0];
+            out.push(expect("NonPositiveValue", geo_case::<f64>("C11", conf, &xs)));
+            out.push(expect("NonPositiveValue", harm_case::<f64>("C11", conf, &xs)));
+        }
+        // mismatched paired lengths
+        for (na, nb) in [(0usize, 1usize), (1, 0), (3, 5), (5, 3), (2, 3)] {
+            let xs = sample_f64(rng, na, 4, 4.0);
+            let ys = sample_f64(rng, nb, 4, 4.0);
+            out.push(expect("DifferentSampleSizes", paired_case::<f64>("C11", conf, &xs, &ys)));
+        }
+        // proportions: k > n, k or n-k in {0,1}, empty population
+        for (n, k) in [(0usize, 0usize), (0, 1), (5, 6), (5, 0), (5, 1), (5, 4), (5, 5), (40, 31), (31, 40), (1, 1), (3, 2)] {
+            let cls = if k > n { "InvalidSuccesses" } else if k < 2 { "TooFewSuccesses" } else if n - k < 2 { "TooFewFailures" } else { "sane" };
+            out.push(expect(cls, format!("C11 {}", prop_ops::nk_line_pub(conf, n, k))));
+        }
+        // quantiles: q outside (0,1), NaN; too few samples
+        for q in [0.0f64, 1.0, -0.1, 1.1, f64::NAN, f64::INFINITY] {
+            for n in [0usize, 3, 8, 50] {
+                out.push(expect("InvalidQuantile", prop_ops::qidx_line_pub("C11", conf, n, q)));
+            }
+            let data: Vec<i64> = (1..=8).collect();
+            out.push(expect("InvalidQuantile", prop_ops::qci_i64_pub("C11", conf, q, &data)));
+        }
+        for n in 0..4usize {
+            out.push(expect("TooFewSamples", prop_ops::qidx_line_pub("C11", conf, n, 0.5)));
+            let data: Vec<i64> = (0..n as i64).collect();
+            out.push(expect("TooFewSamples", prop_ops::qci_i64_pub("C11", conf, 0.5, &data)));
+        }
+    }
+    // random valid inputs too: Ok results must be sane everywhere
+    for _ in 0..reps {
+        let conf = rand_conf(rng);
+        let n = rng.range(2, 40) as usize;
+        let xs = sample_f64(rng, n, 300, 1e6);
+        out.push(expect("sane-or-InvalidInputData", arith_case::<f64>("C11", conf, &xs)));
+        let ys = sample_f64(rng, n, 300, 1e6);
+        out.push(expect("sane-or-InvalidInputData", unpaired_case::<f64>("C11", conf, &xs, &ys)));
+        out.push(expect("sane-or-InvalidInputData", paired_case::<f64>("C11", conf, &xs, &ys)));
+        let ps = sample_pos_f64(rng, n, 400);
+        out.push(expect("sane-or-InvalidInputData", geo_case::<f64>("C11", conf, &ps)));
+        out.push(expect("sane-or-InvalidInputData", harm_case::<f64>("C11", conf, &ps)));
+    }
+}
